@@ -9,8 +9,9 @@ Tau == 1
 
 VARIABLES l, on, rule, now,
           admB, offB,    \* bucket index (t \div 500) -> tokens admitted / offered
-          run, idle, lastAdm, coldAt
-trvars == <<l, on, rule, now, admB, offB, run, idle, lastAdm, coldAt>>
+          run, idle, lastAdm, coldAt,
+          cap            \* threshold of a plain reject rule next to the warm-up rule on the resource (0 = none)
+trvars == <<l, on, rule, now, admB, offB, run, idle, lastAdm, coldAt, cap>>
 
 Get(f, k) == IF k \in DOMAIN f THEN f[k] ELSE 0
 Has(ev, f) == f \in DOMAIN ev
@@ -30,7 +31,7 @@ Roll(t) ==
                  isIdle == off1 + off2 = 0
                  k == snew - sec - 1                       \* fully idle seconds in between
                  idle1 == IF isIdle THEN idle + 1 ELSE 0
-             IN  /\ SecondOKp(Q, Cf, rule.warm, Tau, adm, off1, off2, run, coldAt, lastAdm)
+             IN  /\ SecondOKc(Q, cap, Cf, rule.warm, Tau, adm, off1, off2, run, coldAt, lastAdm)
                  /\ run' = IF k > 0 THEN 0 ELSE IF sat THEN run + 1 ELSE 0
                  /\ idle' = idle1 + k
                  /\ lastAdm' = IF k > 0 THEN 0 ELSE adm
@@ -38,7 +39,7 @@ Roll(t) ==
 
 TraceInit ==
     /\ l = 1 /\ on = FALSE /\ rule = <<>> /\ now = 0 /\ admB = <<>> /\ offB = <<>>
-    /\ run = 0 /\ idle = 0 /\ lastAdm = 0 /\ coldAt = TRUE
+    /\ run = 0 /\ idle = 0 /\ lastAdm = 0 /\ coldAt = TRUE /\ cap = 0
 
 TraceNext ==
     /\ l <= Len(Rec)
@@ -46,10 +47,22 @@ TraceNext ==
     /\ LET ev == Rec[l] IN
        CASE ev.e = "reset" ->
               /\ ev.ok /\ on' = TRUE /\ rule' = <<>> /\ now' = ev.t /\ admB' = <<>> /\ offB' = <<>>
-              /\ run' = 0 /\ idle' = 0 /\ lastAdm' = 0 /\ coldAt' = TRUE
+              /\ run' = 0 /\ idle' = 0 /\ lastAdm' = 0 /\ coldAt' = TRUE /\ cap' = 0
          [] ev.e = "load" ->
-              /\ Has(ev, "ret") /\ on /\ ev.fam = "flow" /\ Len(ev.rules) = 1 /\ ev.rules[1].calc = "warmup"
-              /\ rule' = ev.rules[1] /\ now' = ev.t
+              \* the rules of the call: exactly one warm-up rule on r1, possibly a plain reject rule on r1 (the cap),
+              \* anything on other resources.  A re-load of an equal warm-up rule - whatever its id, whatever
+              \* happens to other resources - does not touch the bookkeeping: the rule must go on as it was.
+              /\ Has(ev, "ret") /\ on /\ ev.fam = "flow"
+              /\ LET mine == {i \in 1..Len(ev.rules) : ev.rules[i].res = "r1"}
+                     warm == {i \in mine : Has(ev.rules[i], "calc") /\ ev.rules[i].calc = "warmup"}
+                     plain == mine \ warm
+                     w == ev.rules[CHOOSE i \in warm : TRUE]
+                     same(a, b) == a.thr = b.thr /\ a.warm = b.warm /\ a.cold = b.cold /\ a.I = b.I
+                 IN  /\ Cardinality(warm) = 1 /\ Cardinality(plain) <= 1
+                     /\ rule # <<>> => same(rule, w)
+                     /\ rule' = w
+                     /\ cap' = IF plain = {} THEN 0 ELSE LET r == ev.rules[CHOOSE i \in plain : TRUE] IN r.thr[1] \div r.thr[2]
+              /\ now' = ev.t
               /\ UNCHANGED <<on, admB, offB, run, idle, lastAdm, coldAt>>
          [] ev.e = "enter" ->
               /\ on /\ rule # <<>> /\ ev.t >= now /\ ev.n = 1
@@ -58,14 +71,14 @@ TraceNext ==
                      win == Get(admB, b - 1) + Get(admB, b)
                  IN  /\ ev.r \in {"pass", "block"}
                      /\ ev.r = "block" => ev.bt = "flow"
-                     /\ ev.r = "pass" => win + 1 <= Q       \* never more than q inside the window
+                     /\ ev.r = "pass" => win + 1 <= (IF cap > 0 /\ cap < Q THEN cap ELSE Q)   \* never more than q (or the cap) inside the window
                      /\ admB' = IF ev.r = "pass" THEN (b :> Get(admB, b) + 1) @@ admB ELSE admB
                      /\ offB' = (b :> Get(offB, b) + 1) @@ offB
               /\ now' = ev.t
-              /\ UNCHANGED <<on, rule>>
+              /\ UNCHANGED <<on, rule, cap>>
          [] ev.e \in {"adv", "exit"} ->
               /\ on /\ ev.t >= now /\ Roll(ev.t) /\ now' = ev.t
-              /\ UNCHANGED <<on, rule, admB, offB>>
+              /\ UNCHANGED <<on, rule, admB, offB, cap>>
          [] OTHER -> FALSE
 TraceSpec == TraceInit /\ [][TraceNext]_trvars
 
